@@ -106,7 +106,12 @@ def deep_diff(a, b, exact=False):
             return f"{a.brief()} vs {b.brief()}"
         if a.kind == "exc":
             return None if a.value == b.value else f"raises {a.value} vs raises {b.value}"
-        return deep_diff(a.value, b.value, exact)
+        va, vb = a.value, b.value
+        if hasattr(va, "__dict__") or hasattr(vb, "__dict__") or isinstance(va, dict) or isinstance(vb, dict):
+            va, vb = view(va), view(vb)       # a frozen reference holds the structural view
+            if isinstance(va, Opaque) or isinstance(vb, Opaque):
+                return None
+        return deep_diff(va, vb, exact)
     if sp.issparse(a) or sp.issparse(b):
         if not (sp.issparse(a) and sp.issparse(b)):
             return "sparse vs dense"
